@@ -70,7 +70,7 @@ Proof.
 Qed.
 Print Assumptions C05_closed_iff_unreferenced.
 
-(** C05_disconnect, part 1: connState.stop (OStop c) removes every fid-table entry of connection c and
+(** (One-request theorem, any state.)  C05_disconnect, part 1: connState.stop (OStop c) removes every fid-table entry of connection c and
     nothing else is added; so once every connection that holds a fid has been stopped, no fid is bound. *)
 Theorem C05_stop_empties_table : forall B bstep c (s : sstate B) k,
   In k (fkeys B (snd (step B bstep (OStop c) s))) -> In k (fkeys B s) /\ fst k <> c.
@@ -119,7 +119,8 @@ Print Assumptions C05_disconnect_rename_free.
     (C08_coherent), which is proved for PathFS only.
     (2) PathFS (C05_B2_pathfs, C05_disconnect_pathfs): [rsafe] is discharged from the backend's own check
     (CoherentRenFs.b2_paths: RenameAt is refused when source path ++ [old] is a prefix of the target path),
-    pathB's coherence invariant and C08_tree_inv; no hypothesis is left except "no panic flagged".
+    pathB's coherence invariant (which also excludes the path-tree panics for PathFS histories) and
+    C08_tree_inv; no hypothesis is left: every File is closed exactly once, after every PathFS history.
     (3) C05_disconnect_refuted: against a backend without the B2 check the conclusion is false. *)
 Theorem C05_disconnect_rsafe : forall B bstep ops (b : B) cs,
   rsafe_history B bstep ops (init_state B b) ->
@@ -131,9 +132,7 @@ Theorem C05_disconnect_rsafe : forall B bstep ops (b : B) cs,
 Proof. exact disconnect_rsafe. Qed.
 Print Assumptions C05_disconnect_rsafe.
 
-Theorem C05_B2_pathfs : forall ops wga inj,
-  s_panic pfs (snd (run pfs pfs_step ops (init_state pfs (pfs_init wga inj)))) = false ->
-  rsafe_history pfs pfs_step ops (init_state pfs (pfs_init wga inj)).
+Theorem C05_B2_pathfs : forall ops wga inj, rsafe_history pfs pfs_step ops (init_state pfs (pfs_init wga inj)).
 Proof. exact rsafe_history_pfs. Qed.
 Print Assumptions C05_B2_pathfs.
 
@@ -141,8 +140,8 @@ Theorem C05_disconnect_pathfs : forall ops wga inj cs,
   let s0 := snd (run pfs pfs_step ops (init_state pfs (pfs_init wga inj))) in
   let s := snd (run pfs pfs_step (map OStop cs) s0) in
   (forall k, In k (fkeys pfs s0) -> In (fst k) cs) ->
-  s_fids pfs s = [] /\
-  (s_panic pfs s = false -> forall h, h < s_nexth pfs s -> close_count h (s_log pfs s) = 1).
+  s_fids pfs s = [] /\ s_panic pfs s = false /\
+  forall h, h < s_nexth pfs s -> close_count h (s_log pfs s) = 1.
 Proof. exact disconnect_pfs. Qed.
 Print Assumptions C05_disconnect_pathfs.
 
@@ -207,7 +206,7 @@ Proof.
 Qed.
 Print Assumptions C05_error_paths_attach.
 
-(** The building block shared by Twalk and Tattach: a failing walkOne (all of its error paths, both walk
+(** (One-step unfolding of the model's walkOne, not a history theorem.)  The building block shared by Twalk and Tattach: a failing walkOne (all of its error paths, both walk
     flavours, wrong QID count) leaves no File behind - either no handle was handed out or the last
     backend call closes it. *)
 Theorem C05_walk_one_handles : forall B bstep from_h from_node nm getattr s,
